@@ -22,7 +22,7 @@ func checkSubscriptionTable(c *Ctx) {
 		c.undecided(rule, "_subscription.run/shape", pos, "no actor loop found")
 		return
 	}
-	paths := (&Walker{P: c.P}).IterRegion(fn, loop)
+	paths := (&Walker{P: c.P, Inline: autoInline(c.P, fn, 12)}).IterRegion(fn, loop)
 	armOf := func(pa *Path) (string, *Effect) {
 		for _, e := range pa.Effects {
 			if e.Kind == "select" && e.Blocking && e.Depth == 0 {
@@ -163,7 +163,7 @@ func checkPublisherTable(c *Ctx) {
 		c.undecided(rule, "publisher.run/shape", pos, "no actor loop found")
 		return
 	}
-	paths := (&Walker{P: c.P}).IterRegion(fn, loop)
+	paths := (&Walker{P: c.P, Inline: autoInline(c.P, fn, 12)}).IterRegion(fn, loop)
 	isParent := func(t *Term) bool { return t.IsRecvField("parent") }
 	armOf := func(pa *Path) (string, *Effect) {
 		for _, e := range pa.Effects {
